@@ -106,7 +106,12 @@ struct Expander {
       c.set_knob("order_desc", 1);
     } else {
       const auto x = k.below(100);
-      if (x < 30) {
+      if (c.knob("lockstep_pct", 0) > 0 && static_cast<int64_t>(k.below(100)) < c.knob("lockstep_pct", 0)) {
+        // programs built in rounds (the generator says so): operation k of every thread before operation k+1 of any
+        c.set_knob("strategy", ST_LOCKSTEP);
+        const auto y = k.below(100);
+        c.set_knob("sparam", y < 15 ? 0 : (y < 70 ? 1 : 2));
+      } else if (x < 30) {
         c.set_knob("strategy", ST_PB);
         const auto y = k.below(100);
         c.set_knob("sparam", y < 50 ? 1 : (y < 85 ? 2 : 3));
